@@ -37,6 +37,8 @@ use rayon::ThreadPool;
 use crate::pattern::MultiPattern;
 use crate::worker::Worker;
 pub use nucleo_matcher::{chars, Config, Matcher, Utf32Str, Utf32String};
+#[cfg(feature = "verif-hooks")]
+use verif::{point, site};
 
 mod boxcar;
 mod par_sort;
@@ -384,6 +386,8 @@ impl<T: Sync + Send + 'static> Nucleo<T> {
     /// worker therad to finish. It is recommend to set the timeout to 10ms.
     pub fn tick(&mut self, timeout: u64) -> Status {
         self.should_notify.store(false, atomic::Ordering::Relaxed);
+        #[cfg(feature = "verif-hooks")]
+        point(site::TICK_AFTER_CLEAR, timeout);
         let status = self.pattern.status();
         let canceled = status != pattern::Status::Unchanged || self.state.canceled();
         let mut res = self.tick_inner(timeout, canceled, status);
@@ -401,10 +405,16 @@ impl<T: Sync + Send + 'static> Nucleo<T> {
         let mut inner = if canceled {
             self.pattern.reset_status();
             self.canceled.store(true, atomic::Ordering::Relaxed);
+            #[cfg(feature = "verif-hooks")]
+            point(site::TICK_BEFORE_BLOCKING_LOCK, 0);
             self.worker.lock_arc()
         } else {
             let Some(worker) = self.worker.try_lock_arc_for(Duration::from_millis(timeout)) else {
+                #[cfg(feature = "verif-hooks")]
+                point(site::TICK_TRYLOCK_FAILED, 0);
                 self.should_notify.store(true, Ordering::Release);
+                #[cfg(feature = "verif-hooks")]
+                point(site::TICK_AFTER_REARM, 0);
                 return Status {
                     changed: false,
                     running: true,
@@ -414,6 +424,8 @@ impl<T: Sync + Send + 'static> Nucleo<T> {
         };
 
         let changed = inner.running;
+        #[cfg(feature = "verif-hooks")]
+        point(site::TICK_LOCKED, changed as u64);
 
         let running = canceled || self.items.count() > inner.item_count();
         if inner.running {
@@ -434,6 +446,10 @@ impl<T: Sync + Send + 'static> Nucleo<T> {
             }
             self.pool
                 .spawn(move || unsafe { inner.run(status, cleared) })
+        }
+        #[cfg(feature = "verif-hooks")]
+        if running {
+            point(site::TICK_AFTER_SPAWN, 0);
         }
         Status { changed, running }
     }
